@@ -139,6 +139,8 @@ def monitor(contract, ncases, rng, on_case=None):
         for gname, (gtype, gexpr) in contract.ghost.items():
             bindings[gname] = case["ghost"][gname] if gname in case.get("ghost", {}) else rtc.evaluate(contract, gexpr, dict(bindings), case.get("universe"))
         if not rtc.satisfies_pre(contract, bindings, case.get("universe")):
+            if "cleanup" in case:
+                case["cleanup"]()
             if getattr(contract, "pre_must_hold", False):
                 # the generator builds its inputs through the public API only: every one of them is a
                 # reachable state, so a false precondition means the contract's assumption about the
@@ -155,6 +157,9 @@ def monitor(contract, ncases, rng, on_case=None):
         except rtc.ContractViolation as cv:
             return n, {"clause": cv.clause, "kind": cv.kind, "detail": cv.detail[:500], "input": desc,
                        "case_seed": case_seed, "target": contract.key, "module": contract.module}
+        finally:
+            if "cleanup" in case:
+                case["cleanup"]()
         if on_case:
             on_case(desc)
     if n == 0:
